@@ -96,7 +96,14 @@ def gen_pairs_trace(recipe, rng):
     fit_pairs = tr['idx'] + len(S)
   else:
     fit_pairs = X[tr['idx']]
-  est, _, opts = gen.fitted(rng, name, opts=opts, train=dict(tr, fit_args=(fit_pairs, tr['labels'])))
+  try:
+    est, _, opts = gen.fitted(rng, name, opts=opts, train=dict(tr, fit_args=(fit_pairs, tr['labels'])))
+  except (ValueError, np.linalg.LinAlgError):
+    if not int_tuples:
+      raise
+    # (ITML's DEFAULT bounds on a dozen points are degenerate - the 5th percentile of the pairwise distances is the zero of
+    #  the diagonal - and on the coarser integer grid its iterations can break down: this bench falls back to the float grid)
+    return gen_pairs_trace(dict(recipe, int_tuples=False), rng)
   events = [model_with_thr(est)]
   arg = idx if via_index else S_arg[idx]
   dist = np.unique(est.pair_distance(arg))         # sorted distinct learned distances (incl. 0.0)
